@@ -137,9 +137,17 @@ def _exporters_by_value(ctx, ex):
                 exp = expected(busword, alignment)
                 what = f"bus word {busword}, alignment {alignment}"
                 cst = {"CONFIG_CSR_ALIGNMENT": alignment, "CONFIG_CSR_DATA_WIDTH": busword}
-                r = pyconst.call(funcs["get_csr_json"], {"csr_regions": model(busword), "constants": cst, "mem_regions": {}}, consts=consts, funcs=funcs, classes=classes)
+                mems_ = {"rom": (0x0, 0x8000, "cached"), "MAIN_RAM": (0x40000000, 0x1234000, "cached"), "csr": (0xf0000000, 0x10000, "io")}
+                r = pyconst.call(funcs["get_csr_json"], {"csr_regions": model(busword), "constants": cst,
+                                                         "mem_regions": {k_: NS(origin=o_, size=z_, type=t_) for k_, (o_, z_, t_) in mems_.items()}},
+                                 consts=consts, funcs=funcs, classes=classes)
                 n_ev += 1
                 d = _json.loads(r[1]) if r[0] == "return" and isinstance(r[1], str) else {}
+                want_mem = {k_.lower(): {"base": o_, "size": z_, "type": t_} for k_, (o_, z_, t_) in mems_.items()}
+                if d.get("memories") != want_mem and bad["json"] is None:
+                    bad["json"] = f"{what}: memories published as {d.get('memories')}, the regions are {want_mem}"
+                if d.get("constants") != {k_.lower(): v_ for k_, v_ in cst.items()} and bad["json"] is None:
+                    bad["json"] = f"{what}: constants published as {d.get('constants')}, given {cst}"
                 regs = d.get("csr_registers", {})
                 for k, (a, nw) in exp.items():
                     g = regs.get(k, {})
